@@ -208,7 +208,27 @@ class SimTransport(transports.Transport):
         return self._in_flight()
 
     def get_write_buffer_limits(self):
-        return (self.window // 4, self.window)
+        return (self._low_water(), self.window)
+
+    def set_write_buffer_limits(self, high=None, low=None):
+        # same defaults and checks as asyncio.transports._FlowControlMixin
+        if high is None:
+            high = 64 * 1024 if low is None else 4 * low
+        if low is None:
+            low = high // 4
+        if not high >= low >= 0:
+            raise ValueError(f"high ({high!r}) must be >= low ({low!r}) must be >= 0")
+        self.window = high
+        self._low = low
+        if self._in_flight() >= self.window:
+            self._maybe_pause()
+        else:
+            self._maybe_resume()
+
+    _low = None
+
+    def _low_water(self):
+        return self.window // 4 if self._low is None else self._low
 
     def set_write_buffer_limits(self, high=None, low=None):
         pass
@@ -217,7 +237,7 @@ class SimTransport(transports.Transport):
         p = self.peer
         if p is None:
             return 0
-        return sum(len(it[2]) for it in p.inbox if it[1] == "data")
+        return sum(len(it[2]) + sum(len(v) for v in it[3:]) for it in p.inbox if it[1] == "data")
 
     def write(self, data):
         if not isinstance(data, (bytes, bytearray, memoryview)):
@@ -228,10 +248,20 @@ class SimTransport(transports.Transport):
             return
         if self.closing or self.closed:
             return
-        data = bytes(data)
-        self.bytes_out += len(data)
+        # Like a selector transport: what fits into the kernel's send buffer is copied at once; the rest is kept *by
+        # reference* (asyncio does not copy it) until the peer has taken earlier data - a caller that re-uses its
+        # buffer meanwhile changes what will be sent.  net.sndbuf=None: everything is copied at once.
+        sndbuf = self.net.sndbuf
+        if sndbuf is None:
+            eager, lazy = bytes(data), None
+        else:
+            mv = memoryview(data)
+            room = max(0, sndbuf - self._in_flight())
+            eager, lazy = bytes(mv[:room]), (mv[room:] if len(mv) > room else None)
+        n = len(eager) + (len(lazy) if lazy is not None else 0)
+        self.bytes_out += n
         if self.write_log is not None:
-            self.write_log.append((self.loop.time(), len(data)))
+            self.write_log.append((self.loop.time(), n))
         p = self.peer
         if self.peer_gone or p is None or p.closed or p.closing:
             # the kernel accepts it; an RST comes back later
@@ -239,10 +269,15 @@ class SimTransport(transports.Transport):
                 self.rst_queued = True
                 self.inbox.append([self.net.new_seq(), "rst", b""])
             return
-        if p.inbox and p.inbox[-1][1] == "data":
-            p.inbox[-1][2] += data          # TCP coalesces unsent bytes
-        else:
-            p.inbox.append([self.net.new_seq(), "data", data])
+        if not (p.inbox and p.inbox[-1][1] == "data"):
+            p.inbox.append([self.net.new_seq(), "data", b""])
+        item = p.inbox[-1]
+        if len(item) == 3:
+            item[2] += eager                 # TCP coalesces unsent bytes
+        elif eager:
+            item.append(eager)               # behind data that is still only referenced
+        if lazy is not None:
+            item.append(lazy)
         self._maybe_pause()
 
     def _maybe_pause(self):
@@ -259,7 +294,7 @@ class SimTransport(transports.Transport):
                 self._lost_pending = False
                 self.loop.call_soon(self._call_connection_lost, None)
             return
-        if self.write_paused and not self.closed and self._in_flight() <= self.window // 4:
+        if self.write_paused and not self.closed and self._in_flight() <= self._low_water():
             self.write_paused = False
             self.protocol.resume_writing()
 
@@ -375,6 +410,7 @@ class Net:
         self.trace = []            # delivery trace (for determinism checks / replays)
         self.n_events = 0
         self.split_policy = default_split_positions
+        self.sndbuf = None         # bytes of one direction the "kernel" copies at write() time (None = everything)
         self.on_event = None       # callback(n_events) after each delivery (fault injection)
 
     def new_seq(self):
@@ -461,8 +497,17 @@ class Net:
 
         self.loop.call_soon(run)
 
+    @staticmethod
+    def materialise(item):
+        """the kernel now takes the bytes that were only referenced so far (whatever they are by now)"""
+        if len(item) > 3:
+            item[2] = bytes(item[2]) + b"".join(bytes(v) for v in item[3:])
+            del item[3:]
+
     def _deliver_net(self, t, cut):
         item = t.inbox[0]
+        if item[1] == "data":
+            self.materialise(item)
         seq, kind, payload = item
         if kind == "data":
             if cut is not None and 0 < cut < len(payload):
@@ -606,6 +651,7 @@ class SimLoop(base_events.BaseEventLoop):
                     for i in range(1, len(en)):
                         opts.append(("batch", i, None))
                 if "split" in ch.kinds and en[0][1] == "net" and en[0][2].inbox[0][1] == "data":
+                    net.materialise(en[0][2].inbox[0])
                     for cut in net.split_policy(en[0][2].inbox[0][2]):
                         opts.append(("split", 0, cut))
                 if "timer" in ch.kinds and timeout is not None and self._vtime + timeout <= self.time_limit:
